@@ -582,7 +582,7 @@ func genCase(r *hx.Rand, prop string) []*big.Int {
 			}
 		default:
 			switch prop {
-			case "C09":
+			case "C09", "C03": // C03: the agent reports a teardown outside a DEL only for pods it verified to be gone
 				switch r.Intn(6) {
 				case 0, 1:
 					recs = append(recs, []int{SGC})
